@@ -17,15 +17,18 @@ Definition acc_of (c : chan_in) : acc := mkA (ci_cd c) (ci_lat c) (sq (ci_pmd c)
 Definition acc_s (a : acc) : string := join "|" [qs (a_cd a); qs (a_pmd2 a); qs (a_pdl2 a); qs (a_lat a)].
 
 (* Fiber.__call__ with Raman off: per channel  pout|cd|pmd^2|pdl^2|latency ; then '#' Fiber.loss *)
-Definition run_chan (fib : fiber) (c : chan_in) : res string :=
+(* propagate_path_with ... (map (elem_shared pi) els) = propagate_path ... (Props/C05: run_sharing_sound);
+   the shared values are bound once, outside the per-channel map *)
+Definition run_chan (fib : fiber) (shs : list (option (res Q))) (c : chan_in) : res string :=
   let* po := fiber_power_out fib (ci_f c) (ci_p c) in
-  let* a := propagate_path run_pi [EFiber fib] (ci_f c) (acc_of c) in
+  let* a := propagate_path_with run_pi [EFiber fib] shs (ci_f c) (acc_of c) in
   Ok (append (qs po) (append "|" (acc_s a))).
 Definition run_fiber (fib : fiber) (chans : list chan_in) : string :=
   match fiber_check fib with
   | Err e => append "E:" e
   | Ok _ =>
-      match mapM (run_chan fib) chans with
+      let shs := map (elem_shared run_pi) [EFiber fib] in
+      match mapM (run_chan fib shs) chans with
       | Ok l => append (join ";" l) (append "#" (rqs (fiber_loss_prop fib)))
       | Err e => append "E:" e
       end
@@ -33,7 +36,8 @@ Definition run_fiber (fib : fiber) (chans : list chan_in) : string :=
 
 (* a path: per channel  cd|pmd^2|pdl^2|latency *)
 Definition run_path (els : list element) (chans : list chan_in) : string :=
-  match mapM (fun c => propagate_path run_pi els (ci_f c) (acc_of c)) chans with
+  let shs := map (elem_shared run_pi) els in
+  match mapM (fun c => propagate_path_with run_pi els shs (ci_f c) (acc_of c)) chans with
   | Ok l => join ";" (map acc_s l)
   | Err e => append "E:" e
   end.
